@@ -504,6 +504,7 @@ theorem step_no (s : St) (op : Op) (hi : Inv s) (hp : PB s) (hn : NO s) : NO (st
     · rename_i s' hc; exact no_keysSub (setCell_keysSub s s' n v hc) hn
     · exact hn
   | save => exact no_save s hn
+  | reopen => exact no_save s hn
   | observe => exact no_observe s hn
 
 theorem init_no : NO init where
